@@ -33,8 +33,13 @@ int main(int argc, char **argv)
             int pos = 1;
             Val c = parseVal(toks, pos);
             out = it->second(c).str();
+        } catch (std::runtime_error &e) {
+            out = badcase().str();              // the harness' own way of refusing a case
         } catch (std::exception &e) {
-            out = badcase().str();
+            // an exception that left the library (std::bad_alloc, std::length_error, ..): in an application it would have left the
+            // event loop and ended the process - reported as a crash
+            std::cerr << "exception escaped: " << e.what() << std::endl;
+            out = "( x4352415348 )";
         }
         alarm(0);
         std::cout << out << "\n" << std::flush;
